@@ -403,6 +403,10 @@ enum SeqKind {
     /// whose URI host is in the certificate connects, the one whose host is not must fail —
     /// `first_valid` says which of the two is set up and used first
     SharedConfig { first_valid: bool },
+    /// two tonic listeners in one process: the first connection of a channel (no client
+    /// certificate) goes to one WITHOUT client authentication, is cut, and the reconnect reaches
+    /// one that REQUIRES a client certificate: it must not be served there
+    SecondListenerRequiresCert,
 }
 
 #[derive(Clone, Debug)]
@@ -488,6 +492,65 @@ fn seq_body(c: &SeqCase, _ch: &Chooser) -> Outcome {
                     bad.push(("call-transmitted:h2-not-negotiated".into(), format!("{calls} handler invocations; only the first call may reach the handler")));
                 }
             }
+            SeqKind::SecondListenerRequiresCert => {
+                let seen_b = Arc::new(Seen::default());
+                let svc_b = EchoServer::new(TlsEcho { seen: seen_b.clone() });
+                let (atx, arx) = tokio::sync::mpsc::unbounded_channel::<NetIo>();
+                let (btx, brx) = tokio::sync::mpsc::unbounded_channel::<NetIo>();
+                let tls_a = ServerTlsConfig::new().identity(Identity::from_pem(SERVER_CERT, SERVER_KEY));
+                let tls_b = ServerTlsConfig::new().identity(Identity::from_pem(SERVER_CERT, SERVER_KEY)).client_ca_root(Certificate::from_pem(CA_A));
+                let mut ba = Server::builder().tls_config(tls_a).unwrap_or_else(|e| crate::explore::machinery(format!("server tls config: {e}")));
+                let mut bb = Server::builder().tls_config(tls_b).unwrap_or_else(|e| crate::explore::machinery(format!("server tls config: {e}")));
+                tokio::spawn(async move {
+                    let _ = ba.add_service(svc).serve_with_incoming(vnet::incoming(arx)).await;
+                });
+                tokio::spawn(async move {
+                    let _ = bb.add_service(svc_b).serve_with_incoming(vnet::incoming(brx)).await;
+                });
+                tokio::spawn(async move {
+                    let mut n = 0usize;
+                    while let Some(io) = rx.recv().await {
+                        let _ = if n == 0 { atx.send(io) } else { btx.send(io) };
+                        n += 1;
+                    }
+                });
+                let tls = ClientTlsConfig::new().ca_certificate(Certificate::from_pem(CA_A));
+                let ep = Endpoint::from_static("https://server.test:443").tls_config(tls).unwrap_or_else(|e| crate::explore::machinery(format!("tls config: {e}")));
+                let chn = match vnet::within(Duration::from_secs(600), ep.connect_with_connector(vnet::connector(st.clone()))).await {
+                    Some(Ok(chn)) => chn,
+                    other => {
+                        bad.push(("valid-configuration-refused".into(), format!("first connection (listener without client authentication) failed: {:?}", other.map(|r| r.map(|_| ()).map_err(|e| e.to_string())))));
+                        return (log, bad);
+                    }
+                };
+                let mut client = EchoClient::new(chn);
+                let first = vnet::within(Duration::from_secs(600), client.unary(Request::new(vec![1]))).await;
+                log.push(format!("first call: {:?}", first.as_ref().map(|r| r.as_ref().map(|_| "answer").map_err(|e| e.code()))));
+                if !matches!(&first, Some(Ok(_))) {
+                    bad.push(("valid-configuration-refused".into(), "the first call (listener without client authentication) did not succeed".into()));
+                    return (log, bad);
+                }
+                vnet::settle_ms(20).await;
+                for s in st.conns.lock().unwrap().iter() {
+                    s.cut();
+                }
+                vnet::settle_ms(20).await;
+                for attempt in 0..3 {
+                    let r = vnet::within(Duration::from_secs(600), client.unary(Request::new(vec![1]))).await;
+                    log.push(format!("call after reconnect #{attempt}: {:?}", r.as_ref().map(|r| r.as_ref().map(|_| "answer").map_err(|e| e.code()))));
+                    match r {
+                        None => bad.push(("hang".into(), "a call after the reconnect never completed".into())),
+                        Some(Ok(_)) => bad.push(("call-transmitted:client-certificate-missing-or-foreign".into(), format!("call #{attempt} after the reconnect was served by the listener that requires a client certificate, although the client has none"))),
+                        Some(Err(_)) => {}
+                    }
+                    vnet::settle_ms(5).await;
+                }
+                let calls_b = seen_b.calls.load(Ordering::SeqCst);
+                log.push(format!("handler calls behind the authenticating listener: {calls_b}"));
+                if calls_b != 0 {
+                    bad.push(("call-transmitted:client-certificate-missing-or-foreign".into(), format!("{calls_b} handler invocation(s) behind the listener that requires a client certificate; the client presented none")));
+                }
+            }
             SeqKind::SharedConfig { first_valid } => {
                 let tls = ServerTlsConfig::new().identity(Identity::from_pem(SERVER_CERT, SERVER_KEY));
                 let mut b = Server::builder().tls_config(tls).unwrap_or_else(|e| crate::explore::machinery(format!("server tls config: {e}")));
@@ -537,6 +600,7 @@ fn seq_cases() -> Vec<SeqCase> {
     let mut out = vec![];
     for chop in [0usize, 2, 3] {
         out.push(SeqCase { kind: SeqKind::ResumedWithoutAlpn, chop });
+        out.push(SeqCase { kind: SeqKind::SecondListenerRequiresCert, chop });
         out.push(SeqCase { kind: SeqKind::SharedConfig { first_valid: true }, chop });
         out.push(SeqCase { kind: SeqKind::SharedConfig { first_valid: false }, chop });
     }
@@ -721,12 +785,12 @@ pub fn property(tier: Tier) -> Property {
     let seq = Section::new(
         "connection-sequences",
         Config { hang_secs: 60, ..Default::default() },
-        "cases (x 3 pipe fragmentation patterns, virtual time, in-memory pipes): (a) one channel whose first connection negotiates h2 with a TLS terminator; the connection is cut; the reconnect reaches a terminator that shares the TLS session store (the session is resumed) but offers no ALPN protocol: with assume_http2 off none of the following calls may succeed or reach the handler; (b) two endpoints configured from clones of ONE ClientTlsConfig without domain_name, one whose URI host the certificate names and one whose host it does not name, in both orders: the first must be served, the second must fail to connect. All cases count as non-trivial.",
+        "cases (x 3 pipe fragmentation patterns, virtual time, in-memory pipes): (a) one channel whose first connection negotiates h2 with a TLS terminator; the connection is cut; the reconnect reaches a terminator that shares the TLS session store (the session is resumed) but offers no ALPN protocol: with assume_http2 off none of the following calls may succeed or reach the handler; (a') two tonic listeners in one process, the first connection of a channel without client certificate goes to the one without client authentication, is cut, and the reconnect reaches the one that requires a client certificate: none of the following calls may be served there; (b) two endpoints configured from clones of ONE ClientTlsConfig without domain_name, one whose URI host the certificate names and one whose host it does not name, in both orders: the first must be served, the second must fail to connect. All cases count as non-trivial.",
         seq_cases(),
         |c: &SeqCase| format!("{c:?}"),
         seq_body,
     )
-    .mins(9, 2, 9);
+    .mins(12, 2, 12);
     let bal = Section::new(
         "balanced-endpoints",
         Config { hang_secs: 120, ..Default::default() },
